@@ -158,7 +158,7 @@ def check(spec, chooser=None, h=None):
     return ex.flags
 
 
-REQUESTS_PER_ENGINE = 4
+REQUESTS_PER_ENGINE = 6
 
 
 def case(c, stats):
